@@ -120,12 +120,17 @@ Definition side_num (sd : side) : N := match sd with Source => 1 | Dest => 2 end
 Definition cname_k (sd : side) (p k : N) : N := 16 * p + 4 * k + side_num sd.
 Definition cname (sd : side) (p : N) : N := cname_k sd p 0.
 Definition SLOTS : nat := 3.               (* names 0 .. 3 are tried; the code's search is unbounded *)
-Fixpoint free_slot (m : N -> option fent) (sd : side) (p : N) (fuel : nat) (k : N) : N :=
+(* unused_conflict_path: a name is taken when EITHER side has a file of that name (a file of that name on the other side is copied
+   across in the same run) *)
+Fixpoint free_slot (m m' : N -> option fent) (sd : side) (p : N) (fuel : nat) (k : N) : N :=
   match fuel with
   | O => cname_k sd p k
-  | S f => match m (cname_k sd p k) with None => cname_k sd p k | Some _ => free_slot m sd p f (k + 1) end
+  | S f => match m (cname_k sd p k), m' (cname_k sd p k) with
+           | None, None => cname_k sd p k
+           | _, _ => free_slot m m' sd p f (k + 1)
+           end
   end.
-Definition cslot (m : N -> option fent) (sd : side) (p : N) : N := free_slot m sd p SLOTS 0.
+Definition cslot (m m' : N -> option fent) (sd : side) (p : N) : N := free_slot m m' sd p SLOTS 0.
 
 Definition action_of (st : strategy) (w : world) (p : N) : option act :=
   match classify (w_src w p) (w_dst w p) (w_dbs w p) (w_dbd w p) with
@@ -153,8 +158,8 @@ Definition exec (now : Z) (w : world) (p : N) (a : act) : world :=
   | RenameConflict =>
       match w_src w p, w_dst w p with
       | Some s, Some d =>
-          mk_world (upd (upd (w_src w) p None) (cslot (w_src w) Source p) (Some s))
-                   (upd (upd (w_dst w) p None) (cslot (w_dst w) Dest p) (Some d))
+          mk_world (upd (upd (w_src w) p None) (cslot (w_src w) (w_dst w) Source p) (Some s))
+                   (upd (upd (w_dst w) p None) (cslot (w_dst w) (w_src w) Dest p) (Some d))
                    (w_dbs w) (w_dbd w)
       | _, _ => w
       end
